@@ -67,7 +67,9 @@ function expectedFactory(c) {
 function judge(c, resps) {
   const r = resps[0];
   if (r.parse_error) return { engineError: 'generated module does not parse: ' + r.parse_error };
-  if (r.panic || r.died || r.hang || !r.eval_js) return { skip: true };
+  // a well-formed input of this space for which the transform panics or kills its process has no output that could satisfy the property
+  if (r.panic || r.died) return { viol: [{ clause: 'transform-failed', diff: r.panic ? 'panic' : 'process-died', msg: r.panic ? `panic in ${r.panic.stage}: ${r.panic.msg}` : 'the transform killed its process' }], obs: 'transform-failed' };
+  if (r.hang || !r.eval_js) return { skip: true };
   const viol = [];
   const counts = { hh: 0, gg: 0, pp: 0, FF: 0, local: 0 };
   const stub = (name) => function (type, props, children) { counts[name]++; return { __v_isVNode: true, type, props: props || null, children: children === undefined ? null : children }; };
